@@ -8,6 +8,7 @@ import json
 import random
 import time
 
+from . import c01_detached as cdet
 from . import c01_graph as cg
 from . import c01_oracle as co
 from . import common, e2, e3, e3_gen
@@ -48,7 +49,7 @@ ASSUMPTIONS = [
     "counts as not built when the cleanup pass was skipped, a DRAINED build is compared by return-code class",
 ]
 
-KNOWN_NAMED = [co.SIG_D4, co.SIG_D9, co.SIG_D8, co.SIG_F1, co.SIG_F2, co.SIG_F3, co.SIG_F4, co.SIG_F5, co.SIG_F6]
+KNOWN_NAMED = [co.SIG_D4, co.SIG_D9, co.SIG_D8, co.SIG_F1, co.SIG_F2, co.SIG_F3, co.SIG_F4, co.SIG_F5, co.SIG_F6, co.SIG_F7, co.SIG_F8]
 
 
 def generate(ctx):
@@ -59,7 +60,7 @@ def generate(ctx):
 # Correspondence (graph level): K on real dumps == K_b of the model; D4/D9 traces
 # ---------------------------------------------------------------------------------------------
 
-HEADER = e2.HEADER.replace("model.GraphDump.", "model.GraphDump model.NoStale.")
+HEADER = e2.HEADER.replace(".\nOpen Scope", " model.NoStale.\nOpen Scope")
 
 
 def _ops_term(trace):
@@ -78,13 +79,17 @@ def correspondence(ctx):
         rng = random.Random(f"c01-e2-{ctx.seed}-{ctx.tier}-{i}")
         tr, cnt, _strict = asyncio.run(asyncio.wait_for(e2.gen_trace(rng, length), 120))
         tr = [t for t in tr if t[0][0] != "dispatch_error"]
-        viol = cg.k_violators(tr[-1][3])
+        viols = [cg.k_violators(t[3]) for t in tr]        # K after EVERY transaction
         ctx.case(("e2-K", i, repr(tr[-1][3])), nontrivial=any(s == cg.SUCCEEDED for _, s, *_ in tr[-1][3]["steps"]))
         ctx.count("e2_traces")
-        ctx.count("e2_final_K_violations", 1 if viol else 0)
+        ctx.count("e2_transactions", len(tr))
+        ctx.count("e2_states_with_K_violations", sum(1 for v in viols if v))
+        ctx.count("e2_detached_completions", sum(
+            1 for t in tr if t[0][0] == "exec_end" and dict((k, d) for k, _, d in t[3]["nodes"]).get(("step", t[0][1]))))
         ops = _ops_term(tr)
-        checks.append(f"set_eqb str_eqb (K_violators (run_ops {ops} (init_st 3))) {_strs(viol)}")
-        meta.append(("K_b == K(real dump)", tr))
+        checks.append(f"vtrace_eqb (K_violators_trace_gen apply_op_t {ops} (init_st 3)) "
+                      f"{common.coq_list([_strs(v) for v in viols])}")
+        meta.append(("K_b == K(real dump) after every transaction", tr))
     # (2) the D4 / D9 histories: the model reproduces every real dump, and the Coq constants are
     #     the histories that were replayed
     for name, ops, const in (("D4", cg.D4_OPS, "d4_ops"), ("D4-scratch", cg.D4_SCRATCH, "d4_scratch"),
@@ -92,7 +97,7 @@ def correspondence(ctx):
         tr = cg.replay(ops)
         checks.append(e2.cq_trace(tr, 3))
         meta.append((f"{name}: model == implementation", tr))
-        checks.append(f"dump_eqb (state_at 3 {_ops_term(tr)}) (state_at 3 {const})")
+        checks.append(f"dump_eqb (state_at_t 3 {_ops_term(tr)}) (state_at 3 {const})")
         meta.append((f"{name}: replayed history == Coq constant {const}", tr))
         ctx.case(("fixed", name), nontrivial=True)
     bad = common.run_cases(ctx, "k", HEADER, checks, chunk=8)
@@ -184,6 +189,47 @@ def guard_cases() -> dict:
     t2 = {"op": "step", "label": "t", "inp": ["s.txt"], "out": ["o2.txt"]}
     out["producer-output-renamed"] = co.case_json(p, [{"edits": [prog({"plan.py": [st, t2, u]})]},
                                                       {"edits": [prog({"plan.py": [st, t, u]})]}])
+    # a child of a sub-plan completes WHILE DETACHED: its input (declared by the main plan) changes,
+    # it rewrites its output with identical content, the sub-plan fails while the child is still
+    # running (gates), the child then succeeds (or fails); the repaired sub-plan re-declares it
+    # unchanged; the consumer of its output belongs to the main plan
+    S = {"op": "step", "label": "S", "inp": ["s.txt"], "out": ["o.txt"]}
+    C = {"op": "step", "label": "C", "inp": ["o.txt"], "out": ["c.txt"]}
+    main = [{"op": "static", "paths": ["s.txt", "p1.py"]}, {"op": "plan", "label": "./p1.py"}, C]
+    cmd = [{"op": "read", "paths": ["s.txt"], "required": True},
+           {"op": "write", "path": "o.txt", "content": "constant\n"}]
+    for name, fails in (("succeeds", False), ("fails", True)):
+        p = e3.Project(sources={"s.txt": "v0\n"},
+                       program={"scripts": {"plan.py": main, "p1.py": [S]}, "commands": {"S": cmd}})
+        e1 = [{"op": "script", "path": "p1.py", "actions": [S, {"op": "gate", "name": "g1"}, {"op": "exit", "rc": 1}]},
+              {"op": "write", "path": "s.txt", "content": "v1\n"}]
+        e2_ = [{"op": "script", "path": "p1.py", "actions": [S]}]
+        if fails:
+            e1.append({"op": "command", "label": "S", "actions": cmd + [{"op": "exit", "rc": 1}]})
+            e2_.append({"op": "command", "label": "S", "actions": cmd})
+        out["child-completes-detached:" + name] = co.case_json(p, [
+            {"edits": e1, "build": {"njob": 3, "schedule": {"order": ["g1", "end:./p1.py", "end:S"], "policy": "fifo"}}},
+            {"edits": e2_}])
+    return out
+
+
+def _run_detached(i_seed):
+    """Worker: one generated 'completes / changes while detached' history."""
+    i, seed = i_seed
+    case, desc = cdet.gen_detached_case(random.Random(f"c01-detached-{seed}-{i}"))
+    out = {"i": i, "desc": desc, "sigs": {}, "error": None}
+    try:
+        r = co.run_case(case)
+    except (e3.E3Error, OSError) as exc:
+        out["error"] = f"{type(exc).__name__}: {str(exc)[:300]}"
+        return out
+    sigs = co.signatures(r["inc"], r["scr"], r["diffs"], None, r["results"][:-1])
+    out["sigs"] = {k: [[d["kind"], d["key"], d["a"], d["b"]] for d in v[:6]] for k, v in sigs.items()}
+    out["rc"] = [x.returncode for x in r["results"]] + [r["scr"].returncode]
+    out["detached_completions"] = sum(
+        1 for res in r["results"] for k, n in e3.parse_graph(res.graph).items()
+        if k.startswith("(step:") and (n["props"].get("state") or [""])[0] in ("SUCCEEDED", "FAILED"))
+    out["size"] = co.case_size(case)
     return out
 
 
@@ -294,6 +340,38 @@ def oracle(ctx, n_override=None):
                 reported.add(s2)
                 _report(ctx, s2, case, [[d["kind"], d["key"], d["a"], d["b"]] for d in diffs],
                         f"guard case {name}; return codes {r['inc'].returncode} / {r['scr'].returncode}")
+    # (2b) generated histories with completions and changes while a step is detached
+    nd = ctx.scale(40, 500)
+    dres = e3.pool_map(_run_detached, [(i, ctx.seed) for i in range(nd)], nproc=ctx.scale(10, 12))
+    dby: dict = {}
+    for res in dres:
+        ctx.count("detached_family")
+        if res["error"]:
+            ctx.add_failure("oracle", "harness", "C01:harness-error:" + res["error"].split(":")[0],
+                            f"E3 could not run detached-family case {res['i']}: {res['error']}",
+                            witness={"i": res["i"], "desc": res["desc"]})
+            continue
+        ctx.count("detached_mode:" + res["desc"]["mode"])
+        ctx.count("detached_between:" + res["desc"]["between"])
+        ctx.count("detached_completions_seen", res["detached_completions"])
+        ctx.case(("detached", res["i"], json.dumps(res["desc"], sort_keys=True)),
+                 nontrivial=res["detached_completions"] > 0)
+        for sig, diffs in res["sigs"].items():
+            ctx.count("sig:" + sig)
+            dby.setdefault(sig, []).append((res["size"], res["i"], diffs))
+    for sig, lst in sorted(dby.items()):
+        if sig in reported:
+            continue
+        lst.sort()
+        size, i, diffs = lst[0]
+        case, desc = cdet.gen_detached_case(random.Random(f"c01-detached-{ctx.seed}-{i}"))
+        sig2 = sig
+        if sig not in KNOWN_NAMED:
+            final = co.case_signatures(case, with_triggers=True)
+            sig2 = next((k for k in final if k.split(":after:")[0] == sig), sig)
+        reported.add(sig)
+        _report(ctx, sig2, case, diffs, f"detached-family case {i} ({desc['mode']}, {desc['between']}), "
+                f"{len(lst)} case(s) with this signature")
     # (3) generated histories
     n = n_override or ctx.scale(240, 4000)
     items = [_gen_item(_item_seed(ctx, i), i) for i in range(n)]
